@@ -21,8 +21,27 @@ def rng(W, A):
     return (-(1 << (w - 1)), (1 << (w - 1)) - 1) if A in SIGNED else (0, (1 << w) - 1)
 
 
+THOROUGH = [False]      # set by ./check --tier thorough: a denser representative grid
+
+
 def values(A):
     """named representative operands: boundaries, small values of both signs, a mid-width value"""
+    base = _values(A)
+    if not THOROUGH[0]:
+        return base
+    db = {"BUint": 64, "BInt": 64, "BUintD32": 32, "BIntD32": 32, "BUintD16": 16, "BIntD16": 16, "BUintD8": 8, "BIntD8": 8}[A]
+    extra = [("3", lambda W: 3), ("10", lambda W: 10), ("100", lambda W: 100 if W.bits(A) > 8 else 99),
+             ("dig", lambda W: (1 << db) % (rng(W, A)[1] + 1)), ("digm1", lambda W: ((1 << db) - 1) % (rng(W, A)[1] + 1)),
+             ("digp1", lambda W: ((1 << db) + 1) % (rng(W, A)[1] + 1)), ("third", lambda W: rng(W, A)[1] // 3),
+             ("halfmax", lambda W: rng(W, A)[1] // 2), ("halfmaxp1", lambda W: rng(W, A)[1] // 2 + 1),
+             ("alt", lambda W: int("5" * (W.bits(A) // 4), 16) % (rng(W, A)[1] + 1))]
+    if A in SIGNED:
+        extra += [("n3", lambda W: -3), ("n100", lambda W: -100 if W.bits(A) > 8 else -99), ("ndig", lambda W: -((1 << db) % (rng(W, A)[1] + 1))),
+                  ("halfmin", lambda W: rng(W, A)[0] // 2), ("nthird", lambda W: -(rng(W, A)[1] // 3)), ("MINp2", lambda W: rng(W, A)[0] + 2)]
+    return base + extra
+
+
+def _values(A):
     if A in SIGNED:
         return [("MIN", lambda W: rng(W, A)[0]), ("MINp1", lambda W: rng(W, A)[0] + 1), ("n7", lambda W: -7),
                 ("n2", lambda W: -2), ("n1", lambda W: -1), ("0", lambda W: 0), ("1", lambda W: 1), ("2", lambda W: 2),
